@@ -30,11 +30,13 @@ def oraclize(qf: QlassF, element: Any, name="oracle"):
     """Transform a QlassF qf and an element to an oracle {f(x) = x == element}"""
     argt_name = type_repr(qf.args[0].ttype)
 
-    if qf.name == name:
-        qf.name = f"_{name}"
+    # work on a copy of the function description: the argument must not be renamed
+    lf = qf.to_logicfun()
+    if lf[0] == name:
+        lf = (f"_{name}",) + tuple(lf[1:])
 
-    fs = f"def {name}(v: {argt_name}) -> bool:\n   return {qf.name}(v) == {element}"
-    oracle = QlassF.from_function(fs, defs=[qf.to_logicfun()])
+    fs = f"def {name}(v: {argt_name}) -> bool:\n   return {lf[0]}(v) == {element}"
+    oracle = QlassF.from_function(fs, defs=[lf])
 
     if (
         len(oracle.expressions) == 1
